@@ -36,9 +36,12 @@ def run_case(case):
         else:
             g = SphereGrid4DFactory.create(alg, N)
         vol = np.asarray(g.get_spherical_voronoi().get_voronoi_volumes(), dtype=float)
+        vol_grid_level = np.asarray(g.get_voronoi_volumes(), dtype=float)
     except Exception as e:
         return {"violations": [viol(pre + "|raises", f"volume computation raised {type(e).__name__}: {str(e)[:120]}",
                                     case, observed=type(e).__name__)], "cells": 0}
+    if vol_grid_level.shape != vol.shape or not np.array_equal(vol_grid_level, vol):
+        vs.append(viol(pre + "|grid_level", "grid.get_voronoi_volumes() differs from the cell model's volumes", case))
     if vol.shape != (N,):
         return {"violations": [viol(pre + "|shape", "not N volumes", case, observed=list(vol.shape))], "cells": 0}
     if N < 4:
